@@ -221,7 +221,148 @@ func init() {
 			}
 		}
 		sort.Strings(callers)
+		// what the goroutines hand to one another: the value of every channel send, and every write to a field
+		var sends, writes []string
+		for _, fd := range fns {
+			params := map[string]bool{}
+			if fd.decl.Recv != nil {
+				for _, p := range fd.decl.Recv.List {
+					for _, nm := range p.Names {
+						params[nm.Name] = true
+					}
+				}
+			}
+			for _, p := range fd.decl.Type.Params.List {
+				for _, nm := range p.Names {
+					params[nm.Name] = true
+				}
+			}
+			// every right-hand side a local identifier is ever given in this function
+			assigned := map[string][]ast.Expr{}
+			ast.Inspect(fd.decl.Body, func(n ast.Node) bool {
+				switch x := n.(type) {
+				case *ast.AssignStmt:
+					for i, l := range x.Lhs {
+						if id, ok := l.(*ast.Ident); ok {
+							if len(x.Rhs) == len(x.Lhs) {
+								assigned[id.Name] = append(assigned[id.Name], x.Rhs[i])
+							} else {
+								assigned[id.Name] = append(assigned[id.Name], nil) // multi-value: not looked into
+							}
+						}
+					}
+					for _, l := range x.Lhs {
+						root := l
+						for {
+							switch y := root.(type) {
+							case *ast.IndexExpr:
+								root = y.X
+								continue
+							case *ast.ParenExpr:
+								root = y.X
+								continue
+							case *ast.StarExpr:
+								root = y.X
+								continue
+							}
+							break
+						}
+						if sel, ok := root.(*ast.SelectorExpr); ok {
+							writes = append(writes, fmt.Sprintf("(%q, %q)", fd.name, sel.Sel.Name))
+						}
+					}
+				case *ast.IncDecStmt:
+					if sel, ok := x.X.(*ast.SelectorExpr); ok {
+						writes = append(writes, fmt.Sprintf("(%q, %q)", fd.name, sel.Sel.Name))
+					}
+				case *ast.ValueSpec:
+					for i, nm := range x.Names {
+						if i < len(x.Values) {
+							assigned[nm.Name] = append(assigned[nm.Name], x.Values[i])
+						} else {
+							assigned[nm.Name] = append(assigned[nm.Name], &ast.CompositeLit{}) // zero value
+						}
+					}
+				case *ast.RangeStmt:
+					for _, e := range []ast.Expr{x.Key, x.Value} {
+						if id, ok := e.(*ast.Ident); ok {
+							assigned[id.Name] = append(assigned[id.Name], nil)
+						}
+					}
+				}
+				return true
+			})
+			// fresh: allocated by this function for this send - a composite literal (or its address), make(...), the result
+			// of a call of a package function, or append(<the same local>, ...) of a local that is otherwise fresh
+			var freshExpr func(e ast.Expr, self string) bool
+			freshExpr = func(e ast.Expr, self string) bool {
+				switch x := e.(type) {
+				case nil:
+					return false
+				case *ast.CompositeLit:
+					return true
+				case *ast.UnaryExpr:
+					_, ok := x.X.(*ast.CompositeLit)
+					return ok && x.Op == token.AND
+				case *ast.CallExpr:
+					if id, ok := x.Fun.(*ast.Ident); ok {
+						switch {
+						case id.Name == "make" || id.Name == "new":
+							return true
+						case id.Name == "append":
+							if len(x.Args) == 0 {
+								return false
+							}
+							a0, ok := x.Args[0].(*ast.Ident)
+							return ok && self != "" && a0.Name == self
+						default:
+							_, isPkgFn := byBare[id.Name]
+							if id.Obj != nil { // (resolved in the file: must be the function, not a local of that name)
+								_, isFunc := id.Obj.Decl.(*ast.FuncDecl)
+								return isPkgFn && isFunc
+							}
+							return isPkgFn
+						}
+					}
+				}
+				return false
+			}
+			ast.Inspect(fd.decl.Body, func(n ast.Node) bool {
+				st, ok := n.(*ast.SendStmt)
+				if !ok {
+					return true
+				}
+				origin := "shared: " + dbeStr(st.Value)
+				if freshExpr(st.Value, "") {
+					origin = "fresh"
+				} else if id, ok := st.Value.(*ast.Ident); ok {
+					rhs, local := assigned[id.Name]
+					switch {
+					case params[id.Name]:
+						origin = "param"
+					case local && len(rhs) > 0:
+						origin = "fresh"
+						for _, e := range rhs {
+							if !freshExpr(e, id.Name) {
+								origin = "shared: " + id.Name + " = " + dbeStr(e)
+								if e == nil {
+									origin = "shared: " + id.Name
+								}
+								break
+							}
+						}
+					}
+				}
+				sends = append(sends, fmt.Sprintf("(%q, %q, %q)", fd.name, dbeStr(st.Chan), origin))
+				return true
+			})
+		}
 		f := newFactFile("Subscribe")
+		f.raw("-- every channel send of the package: (function, channel, where the value comes from); fresh = allocated by the\n")
+		f.raw("-- sending function for this send (composite literal, make, result of a package function, append to such a local)\n")
+		f.raw("def subscribeChanSends : List (String × String × String) := [\n  %s\n]\n", strings.Join(sends, ",\n  "))
+		f.raw("-- every assignment to a field (selector on the left-hand side, also indexed / incremented): (function, field)\n")
+		f.raw("def subscribeFieldWrites : List (String × String) := [\n  %s\n]\n", strings.Join(writes, ",\n  "))
 		f.raw("-- rpc/api/subscribe: every access to the subscription table (function, kind), in source order\n")
 		f.raw("def subscribeAccess : List (String × String) := [\n  %s\n]\n", strings.Join(access, ",\n  "))
 		f.raw("-- functions that reach such an access without leaving their goroutine (directly or through calls)\n")
